@@ -303,6 +303,157 @@ pub fn run_mt(c: &super::c04::MtCase) -> Outcome {
 }
 
 // ---------------------------------------------------------------------------------------------
+// Waiters that register at the very moment the control completes (the harness owns part of the schedule:
+// each waiter's waker takes a generated time to clone, which is done while the ticket registers it)
+
+#[derive(Clone, Debug, serde::Serialize, serde::Deserialize)]
+pub struct RegRaceCase {
+	/// per waiter thread: (start offset in µs after the release, µs its waker takes to clone)
+	pub waiters: Vec<(u16, u16)>,
+	/// true: the observed control is behind a gate that is released together with the waiters;
+	/// false: the job is deleted (delete_now) at that moment and the waiters hold an outstanding to_wait ticket
+	pub completes: bool,
+	pub rounds: u8,
+}
+
+mod slowwaker {
+	use std::sync::{Arc, Condvar, Mutex};
+	use std::task::{RawWaker, RawWakerVTable, Waker};
+
+	pub struct Inner {
+		pub woken: Mutex<bool>,
+		pub cv: Condvar,
+		pub clone_us: u64,
+	}
+
+	unsafe fn clone(p: *const ()) -> RawWaker {
+		let a = Arc::from_raw(p.cast::<Inner>());
+		if a.clone_us > 0 {
+			std::thread::sleep(std::time::Duration::from_micros(a.clone_us));
+		}
+		let b = a.clone();
+		std::mem::forget(a);
+		RawWaker::new(Arc::into_raw(b).cast(), &VTABLE)
+	}
+	unsafe fn wake(p: *const ()) {
+		let a = Arc::from_raw(p.cast::<Inner>());
+		*a.woken.lock().unwrap() = true;
+		a.cv.notify_all();
+	}
+	unsafe fn wake_by_ref(p: *const ()) {
+		let a = Arc::from_raw(p.cast::<Inner>());
+		*a.woken.lock().unwrap() = true;
+		a.cv.notify_all();
+		std::mem::forget(a);
+	}
+	unsafe fn drop_w(p: *const ()) {
+		drop(Arc::from_raw(p.cast::<Inner>()));
+	}
+	static VTABLE: RawWakerVTable = RawWakerVTable::new(clone, wake, wake_by_ref, drop_w);
+
+	pub fn new(clone_us: u64) -> (Arc<Inner>, Waker) {
+		let inner = Arc::new(Inner { woken: Mutex::new(false), cv: Condvar::new(), clone_us });
+		let w = unsafe { Waker::from_raw(RawWaker::new(Arc::into_raw(inner.clone()).cast(), &VTABLE)) };
+		(inner, w)
+	}
+}
+
+pub fn run_regrace(c: &RegRaceCase) -> Outcome {
+	use std::future::Future;
+	use std::sync::{atomic::{AtomicUsize, Ordering}, Arc, Barrier};
+	use std::task::{Context, Poll};
+	use std::time::Duration;
+	use watchexec_supervisor::{
+		command::{Command, Program, SpawnOptions},
+		job::start_job,
+	};
+	let mut o = Outcome::pass();
+	o.nontrivial = c.waiters.len() >= 2;
+	let rt = tokio::runtime::Builder::new_multi_thread().worker_threads(2).enable_all().build().unwrap();
+	let n = c.waiters.len();
+	let mut failure: Option<String> = None;
+	for round in 0..usize::from(c.rounds.max(1)) {
+		let lost = Arc::new(AtomicUsize::new(0));
+		let resolved_unwoken = Arc::new(AtomicUsize::new(0));
+		let (job, task) = rt.block_on(async { start_job(Arc::new(Command { program: Program::Exec { prog: "/bin/true".into(), args: Vec::new() }, options: SpawnOptions::default() })) });
+		let (gate_s, gate_r) = tokio::sync::oneshot::channel::<()>();
+		job.run_async(move |_| {
+			Box::new(async move {
+				let _ = gate_r.await;
+			})
+		});
+		// the observed ticket: a closure behind the gate, or a wait-for-end that only the job's end resolves
+		let ticket = if c.completes { job.run(|_| {}) } else { job.to_wait() };
+		let barrier = Arc::new(Barrier::new(n + 1));
+		let mut th = Vec::new();
+		for (off_us, clone_us) in c.waiters.clone() {
+			let mut t = ticket.clone();
+			let barrier = barrier.clone();
+			let lost = lost.clone();
+			let resolved_unwoken = resolved_unwoken.clone();
+			th.push(std::thread::spawn(move || {
+				let (inner, waker) = slowwaker::new(u64::from(clone_us));
+				barrier.wait();
+				if off_us > 0 {
+					std::thread::sleep(Duration::from_micros(u64::from(off_us)));
+				}
+				let mut cx = Context::from_waker(&waker);
+				loop {
+					if let Poll::Ready(()) = std::pin::Pin::new(&mut t).poll(&mut cx) {
+						return;
+					}
+					// registered: now only a wake-up may bring us back
+					let guard = inner.woken.lock().unwrap();
+					let (mut guard, res) = inner.cv.wait_timeout_while(guard, Duration::from_millis(1500), |w| !*w).unwrap();
+					if res.timed_out() {
+						drop(guard);
+						// not woken for 1.5 s: is the ticket in fact resolved?
+						let (_, w2) = slowwaker::new(0);
+						let mut cx2 = Context::from_waker(&w2);
+						if let Poll::Ready(()) = std::pin::Pin::new(&mut t).poll(&mut cx2) {
+							resolved_unwoken.fetch_add(1, Ordering::SeqCst);
+						} else {
+							lost.fetch_add(1, Ordering::SeqCst);
+						}
+						return;
+					}
+					*guard = false;
+				}
+			}));
+		}
+		barrier.wait();
+		if c.completes {
+			let _ = gate_s.send(());
+		} else {
+			drop(job.delete_now());
+			let _ = gate_s.send(());
+		}
+		for t in th {
+			let _ = t.join();
+		}
+		let ru = resolved_unwoken.load(Ordering::SeqCst);
+		let l = lost.load(Ordering::SeqCst);
+		rt.block_on(async {
+			job.delete_now().await;
+			let _ = tokio::time::timeout(Duration::from_secs(3), task).await;
+		});
+		if ru > 0 {
+			failure = Some(format!("round {round}: {ru} of {n} waiters were never woken although the ticket had resolved (they registered while the flag was being raised)"));
+			break;
+		}
+		if l > 0 {
+			failure = Some(format!("round {round}: {l} of {n} waiters saw the ticket still unresolved 1.5 s after the control completed / the job ended"));
+			break;
+		}
+	}
+	rt.shutdown_timeout(std::time::Duration::from_millis(200));
+	if let Some(f) = failure {
+		o.fail(if f.contains("never woken") { "waiters-diverge:registered-during-raise-never-woken" } else { "ticket-never-resolves:register-race" }, format!("{f}\ncase {c:?}"));
+	}
+	o
+}
+
+// ---------------------------------------------------------------------------------------------
 // A graceful stop whose deadline falls inside a sustained flood of high-priority controls
 
 #[derive(Clone, Debug, serde::Serialize, serde::Deserialize)]
@@ -468,6 +619,28 @@ pub fn check(e: &Engine) {
 		},
 		&|| (jobgen::mt_case(), 2usize..5).prop_map(|(c, n)| super::c04::MtCase { case: c, senders: n }).boxed(),
 		&run_mt,
+	);
+	e.explore(
+		"register-during-raise",
+		LegOpts {
+			cases: e.tier.pick(24, 600),
+			shards: 4,
+			threads: 4,
+			confirm: 1,
+			max_shrink_iters: 6,
+			rule: "4-24 OS threads each poll a clone of one ticket for the first time within 0-300 µs of the moment the control completes (a closure behind a gate that is released then) or the job ends (delete_now with a to_wait ticket outstanding); each thread's waker takes 0-400 µs to clone, which stretches the ticket's registration; 10-30 rounds per case: a waiter that was not woken for 1.5 s although the ticket is resolved is a lost wake-up; non-trivial = 2 or more waiters",
+			confirm_any: &[],
+		},
+		&|| {
+			(
+				proptest::collection::vec((prop_oneof![3 => Just(0u16), 1 => 0u16..300], prop_oneof![2 => Just(0u16), 2 => Just(50), 1 => 100u16..400]), 4..25),
+				any::<bool>(),
+				10u8..30,
+			)
+				.prop_map(|(waiters, completes, rounds)| RegRaceCase { waiters, completes, rounds })
+				.boxed()
+		},
+		&run_regrace,
 	);
 	e.explore(
 		"high-priority-flood",
